@@ -7,7 +7,11 @@
 (*   out     "ok" | "raise";  fired  the injected OSError was raised;  fs  the directory after the call          *)
 (*   extra   files outside the scenario that appeared or changed anywhere under the scratch root:                *)
 (*           <<relative name, content before, content after>>                                                    *)
-(*   reparses  (out = "ok") parsing the saved path with a fresh parser gave the configuration that was saved     *)
+(*   reparses  (out = "ok") parsing the saved path with a fresh parser -- from another working directory, after  *)
+(*           the directories the config was originally loaded from have been moved away -- gave the              *)
+(*           configuration that was saved                                                                        *)
+(*   refs    (out = "ok") what the saved documents say where each component is: <<key, file name>>, the name     *)
+(*           being "?..." when it is not the bare name of a file of the output directory                         *)
 (* Ref clauses decide the verdict, the Alg clause (the event sequence is the one Run(sc) predicts) only drift.   *)
 (* A failing Ref clause is qualified: "...-as:<deviation>:<cause>" when the real code did exactly what the Alg   *)
 (* layer predicts for one of the named deviations of Save.tla, "...-other" for anything else.                    *)
@@ -47,7 +51,12 @@ Check(k) ==
      /\ (o.out = "ok" => o.reparses)
           \/ Say(k, IF same /\ dev \in {"multi-name-collision", "inplace-content-emptied"} THEN "ref-reparse-as:" \o dev ELSE "ref-reparse-other")
      \* the model's own reading of "reparses" (file contents identified by the harness) agrees with the real re-parse
-     /\ (o.out = "ok" => (Reparses(sc, fin) <=> o.reparses)) \/ Say(k, "alg-reparse-model")
+     \* the saved documents refer to every component's file by the bare name it was written under (read from the saved
+     \* files by the harness; independent of where the component was originally loaded from)
+     /\ ((o.out = "ok" /\ sc.multifile /\ ~Collision(sc)) => \A x \in Range(sc.subs) : RefersTo(o.refs, SubKey(x)) = {SubName(x)})
+          \/ Say(k, "ref-reparse-refs")
+     /\ (o.out = "ok" => (Reparses(sc, fin, o.refs) <=> o.reparses)) \/ Say(k, "alg-reparse-model")
+     /\ ((o.out = "ok" /\ ~Collision(sc)) => o.refs = r.refs) \/ Say(k, "alg-refs")
      \* ---- Alg: same outcome, same final directory, same order of effects
      /\ same \/ Say(k, "alg-final")
      /\ (seen = r.hist /\ o.fired = r.fired) \/ Say(k, "alg-events")
